@@ -405,7 +405,7 @@ def _stmt_of(node):
 # ---------------------------------------------------------------------- VI7 / VI1
 def rule_vi7(A: Analysis, rep):
     n = 0
-    for f in A.prog.functions.values():
+    for f in A.prog.scan_functions:
         if f.fq.startswith("conductor.envs") or f.fq.startswith("conductor.explorer"):
             continue
         for c in walk_local(f.node):
@@ -486,7 +486,7 @@ def rule_vi1(A: Analysis, rep):
                   "index writers changed — %s is now called by %s (expected %s)" % (k, sorted(got), sorted(w)))
     # raw connection commits
     raw = set()
-    for f in A.prog.functions.values():
+    for f in A.prog.scan_functions:
         for c in walk_local(f.node):
             if isinstance(c, ast.Call) and isinstance(c.func, ast.Attribute) and c.func.attr in ("commit", "rollback"):
                 bt = A.res.type_of(c.func.value, f)
